@@ -489,6 +489,330 @@ theorem AllT_node {P : Info → Nat → Option Nat → List Nat → Prop} {s : I
     AllT P (.node s i iv h kids) :=
   ⟨hs, AllL_of_forall P kids hk⟩
 
+/-! ### the state-free skeleton of a tree: everything the call tables depend on -/
+mutual
+def skel : Tree → Tree
+  | .node s _ _ _ kids => .node s 0 none [] (skelL kids)
+def skelL : List Tree → List Tree
+  | [] => []
+  | t :: ts => skel t :: skelL ts
+end
+
+theorem skel_info : ∀ t, (skel t).info = t.info
+  | .node _ _ _ _ _ => by simp [skel, Tree.info]
+
+mutual
+theorem anyI_skel : ∀ t, anyI (skel t) = anyI t
+  | .node s i iv h kids => by simp only [skel, anyI]; rw [anyIL_skel kids]
+theorem anyIL_skel : ∀ ts, anyIL (skelL ts) = anyIL ts
+  | [] => rfl
+  | t :: ts => by simp only [skelL, anyIL]; rw [anyI_skel t, anyIL_skel ts]
+end
+mutual
+theorem anyHist_skel : ∀ t, anyHist (skel t) = anyHist t
+  | .node s i iv h kids => by simp only [skel, anyHist]; rw [anyHistL_skel kids]
+theorem anyHistL_skel : ∀ ts, anyHistL (skelL ts) = anyHistL ts
+  | [] => rfl
+  | t :: ts => by simp only [skelL, anyHistL]; rw [anyHist_skel t, anyHistL_skel ts]
+end
+mutual
+theorem wfStep_skel : ∀ t, wfStep (skel t) = wfStep t
+  | .node s i iv h kids => by simp only [skel, wfStep]; rw [wfStepL_skel kids]
+theorem wfStepL_skel : ∀ ts, wfStepL (skelL ts) = wfStepL ts
+  | [] => rfl
+  | t :: ts => by simp only [skelL, wfStepL]; rw [skel_info, wfStep_skel t, anyI_skel t, wfStepL_skel ts]
+end
+mutual
+theorem wfSave_skel : ∀ t g, wfSave g (skel t) = wfSave g t
+  | .node s i iv h kids, g => by simp only [skel, wfSave]; rw [wfSaveL_skel kids]
+theorem wfSaveL_skel : ∀ ts a b c, wfSaveL a b c (skelL ts) = wfSaveL a b c ts
+  | [], _, _, _ => rfl
+  | t :: ts, a, b, c => by
+    simp only [skelL, wfSaveL]; rw [skel_info, wfSave_skel t, wfSave_skel t, anyHist_skel t, wfSaveL_skel ts]
+end
+mutual
+theorem wfSet_skel : ∀ t m d, wfSet m d (skel t) = wfSet m d t
+  | .node s i iv h kids, m, d => by simp only [skel, wfSet]; rw [wfSetL_skel kids]
+theorem wfSetL_skel : ∀ ts m d, wfSetL m d (skelL ts) = wfSetL m d ts
+  | [], _, _ => rfl
+  | t :: ts, m, d => by simp only [skelL, wfSetL]; rw [skel_info, wfSet_skel t, wfSetL_skel ts]
+end
+mutual
+theorem wfSetOnly_skel : ∀ t m d, wfSetOnly m d (skel t) = wfSetOnly m d t
+  | .node s i iv h kids, m, d => by simp only [skel, wfSetOnly]; rw [wfSetOnlyL_skel kids]
+theorem wfSetOnlyL_skel : ∀ ts m d, wfSetOnlyL m d (skelL ts) = wfSetOnlyL m d ts
+  | [], _, _ => rfl
+  | t :: ts, m, d => by simp only [skelL, wfSetOnlyL]; rw [skel_info, wfSetOnly_skel t, wfSetOnlyL_skel ts]
+end
+mutual
+theorem everyIvT_skel {q : Tree → Bool} (hq : ∀ t, q (skel t) = q t) : ∀ t, everyIvT q (skel t) = everyIvT q t
+  | .node s i iv h kids => by
+    have e := hq (.node s i iv h kids)
+    simp only [skel] at e
+    simp only [skel, everyIvT]; rw [e, everyIvL_skel hq kids]
+theorem everyIvL_skel {q : Tree → Bool} (hq : ∀ t, q (skel t) = q t) : ∀ ts, everyIvL q (skelL ts) = everyIvL q ts
+  | [] => rfl
+  | t :: ts => by simp only [skelL, everyIvL]; rw [everyIvT_skel hq t, everyIvL_skel hq ts]
+end
+
+theorem setClean_skel (t : Tree) : setClean (skel t) = setClean t :=
+  everyIvT_skel (fun t => wfSetOnly_skel t 1 []) t
+
+/-- two trees with the same skeleton (two STATES of the same object tree) have the same call tables -/
+theorem static_congr {t t' : Tree} (e : skel t' = skel t) :
+    wfStep t' = wfStep t ∧ (∀ g, wfSave g t' = wfSave g t) ∧ (∀ m d, wfSet m d t' = wfSet m d t) ∧
+    (∀ m d, wfSetOnly m d t' = wfSetOnly m d t) ∧ setClean t' = setClean t := by
+  refine ⟨?_, fun g => ?_, fun m d => ?_, fun m d => ?_, ?_⟩
+  · rw [← wfStep_skel t', e, wfStep_skel]
+  · rw [← wfSave_skel t', e, wfSave_skel]
+  · rw [← wfSet_skel t', e, wfSet_skel]
+  · rw [← wfSetOnly_skel t', e, wfSetOnly_skel]
+  · rw [← setClean_skel t', e, setClean_skel]
+
+/- the operations do not change the skeleton -/
+mutual
+theorem skel_setT (m : Nat) (deep : List (List Nat)) (v : Option Nat) : ∀ t, skel (setT m deep v t) = skel t
+  | .node s i iv h kids => by simp only [setT, skel]; rw [skelL_setL m _ v kids]
+theorem skelL_setL (m : Nat) (deep : List (List Nat)) (v : Option Nat) : ∀ ts, skelL (setL m deep v ts) = skelL ts
+  | [] => rfl
+  | t :: ts => by simp only [setL, skelL]; rw [skel_setT _ _ v t, skelL_setL m deep v ts]
+end
+
+theorem skel_assignRoot (v : Option Nat) : ∀ t, skel (assignRoot v t) = skel t
+  | .node _ _ _ _ _ => by simp only [assignRoot, skel]
+
+mutual
+theorem skel_atT {f : Tree → Tree} (hf : ∀ t, skel (f t) = skel t) : ∀ (t : Tree) (k : Nat), skel (atT f k t) = skel t
+  | .node s i iv h kids, k => by
+    simp only [atT]
+    split
+    · split
+      · exact hf _
+      · simp only [skel]; rw [skelL_atL hf kids]
+    · simp only [skel]; rw [skelL_atL hf kids]
+theorem skelL_atL {f : Tree → Tree} (hf : ∀ t, skel (f t) = skel t) : ∀ (ts : List Tree) (k : Nat), skelL (atL f k ts) = skelL ts
+  | [], _ => rfl
+  | t :: ts, k => by
+    simp only [atL]
+    split
+    · simp only [skelL]; rw [skel_atT hf t]
+    · simp only [skelL]; rw [skelL_atL hf ts]
+end
+
+theorem skel_pokeT (k : Nat) (v : Option Nat) (t : Tree) : skel (pokeT k v t) = skel t :=
+  skel_atT (skel_assignRoot v) t k
+
+theorem skel_setAtT (k : Nat) (v : Option Nat) (t : Tree) : skel (setAtT k v t) = skel t :=
+  skel_atT (skel_setT 1 [] v) t k
+
+/-! ### writes to nested intervals (`pokeT`, `setAtT`) -/
+theorem assignRoot_keeps {P : Info → Nat → Option Nat → List Nat → Prop}
+    (hP : ∀ s i iv iv' h, P s i iv h → P s i iv' h) (v : Option Nat) : ∀ t, AllT P t → AllT P (assignRoot v t)
+  | .node s i iv h kids => by
+    simp only [assignRoot, AllT]
+    exact fun ⟨a, b⟩ => ⟨hP _ _ _ _ _ a, b⟩
+
+/- a write at the k-th interval-carrying node touches what `f` touches, nothing else -/
+mutual
+theorem atT_keeps {P : Info → Nat → Option Nat → List Nat → Prop} {f : Tree → Tree}
+    (hf : ∀ t, AllT P t → AllT P (f t)) : ∀ (t : Tree) (k : Nat), AllT P t → AllT P (atT f k t)
+  | .node s i iv h kids, k => by
+    intro ha
+    simp only [atT]
+    split
+    · split
+      · exact hf _ ha
+      · simp only [AllT] at ha ⊢
+        exact ⟨ha.1, atL_keeps hf kids _ ha.2⟩
+    · simp only [AllT] at ha ⊢
+      exact ⟨ha.1, atL_keeps hf kids _ ha.2⟩
+theorem atL_keeps {P : Info → Nat → Option Nat → List Nat → Prop} {f : Tree → Tree}
+    (hf : ∀ t, AllT P t → AllT P (f t)) : ∀ (ts : List Tree) (k : Nat), AllL P ts → AllL P (atL f k ts)
+  | [], _ => fun h => h
+  | t :: ts, k => by
+    intro ha
+    simp only [atL]
+    split
+    · simp only [AllL] at ha ⊢
+      exact ⟨atT_keeps hf t k ha.1, ha.2⟩
+    · simp only [AllL] at ha ⊢
+      exact ⟨ha.1, atL_keeps hf ts _ ha.2⟩
+end
+
+theorem pokeT_keeps {P : Info → Nat → Option Nat → List Nat → Prop}
+    (hP : ∀ s i iv iv' h, P s i iv h → P s i iv' h) (k : Nat) (v : Option Nat) (t : Tree) :
+    AllT P t → AllT P (pokeT k v t) :=
+  atT_keeps (assignRoot_keeps hP v) t k
+
+theorem setAtT_keeps {P : Info → Nat → Option Nat → List Nat → Prop}
+    (hP : ∀ s i iv iv' h, P s i iv h → P s i iv' h) (k : Nat) (v : Option Nat) (t : Tree) :
+    AllT P t → AllT P (setAtT k v t) :=
+  atT_keeps (setT_keeps hP 1 [] v) t k
+
+mutual
+theorem atT_info {f : Tree → Tree} (hf : ∀ t, (f t).info = t.info) : ∀ (t : Tree) (k : Nat), (atT f k t).info = t.info
+  | .node s i iv h kids, k => by
+    simp only [atT]
+    split
+    · split
+      · exact hf _
+      · rfl
+    · rfl
+end
+
+theorem everyIvT_true : ∀ t, everyIvT (fun _ => true) t = true := by
+  intro t
+  have key : (∀ t, everyIvT (fun _ => true) t = true) ∧ (∀ ts, everyIvL (fun _ => true) ts = true) := by
+    refine ⟨?_, ?_⟩
+    · intro t
+      induction t using Tree.rec (motive_2 := fun ts => everyIvL (fun _ => true) ts = true) with
+      | node s i iv h kids ih => simp only [everyIvT, Bool.or_true, Bool.true_and]; exact ih
+      | nil => rfl
+      | cons t ts iht ihts => simp only [everyIvL, iht, ihts, Bool.and_self]
+    · intro ts
+      induction ts using Tree.rec_1 (motive_1 := fun t => everyIvT (fun _ => true) t = true) with
+      | node s i iv h kids ih => simp only [everyIvT, Bool.or_true, Bool.true_and]; exact ih
+      | nil => rfl
+      | cons t ts iht ihts => simp only [everyIvL, iht, ihts, Bool.and_self]
+  exact key.1 t
+
+/- **absorption.**  The cascade started with `(m, deep)` covers the tree (`wfSet`).  If `f`, applied to a
+    subtree whose root carries an interval and satisfies `q`, is undone by any covering cascade, then so
+    is `f` applied at the k-th interval-carrying node. -/
+mutual
+theorem setT_absorbs_atT (v : Option Nat) {f : Tree → Tree} {q : Tree → Bool}
+    (hfi : ∀ t, (f t).info = t.info)
+    (hf : ∀ t m deep, t.info.hasInterval = true → q t = true → wfSet m deep t = true →
+      setT m deep v (f t) = setT m deep v t) :
+    ∀ (t : Tree) (k m : Nat) (deep : List (List Nat)), wfSet m deep t = true → everyIvT q t = true →
+      setT m deep v (atT f k t) = setT m deep v t
+  | .node s i iv h kids, k, m, deep => by
+    intro w c
+    simp only [atT]
+    have w' := w
+    have c' := c
+    simp only [wfSet, Bool.and_eq_true] at w'
+    simp only [everyIvT, Bool.and_eq_true, Bool.or_eq_true, Bool.not_eq_true'] at c'
+    split
+    · rename_i hs
+      split
+      · refine hf _ m deep hs ?_ w
+        rcases c'.1 with x | x
+        · rw [hs] at x; cases x
+        · exact x
+      · simp only [setT]
+        rw [setL_absorbs_atL v hfi hf kids _ m _ w'.2 c'.2]
+    · simp only [setT]
+      rw [setL_absorbs_atL v hfi hf kids _ m _ w'.2 c'.2]
+theorem setL_absorbs_atL (v : Option Nat) {f : Tree → Tree} {q : Tree → Bool}
+    (hfi : ∀ t, (f t).info = t.info)
+    (hf : ∀ t m deep, t.info.hasInterval = true → q t = true → wfSet m deep t = true →
+      setT m deep v (f t) = setT m deep v t) :
+    ∀ (ts : List Tree) (k m : Nat) (deep : List (List Nat)), wfSetL m deep ts = true → everyIvL q ts = true →
+      setL m deep v (atL f k ts) = setL m deep v ts
+  | [], _, _, _ => fun _ _ => rfl
+  | t :: ts, k, m, deep => by
+    intro w c
+    simp only [wfSetL, Bool.and_eq_true] at w
+    simp only [everyIvL, Bool.and_eq_true] at c
+    simp only [atL]
+    split
+    · simp only [setL]
+      rw [atT_info hfi t k, setT_absorbs_atT v hfi hf t k _ _ w.1 c.1]
+    · simp only [setL]
+      rw [setL_absorbs_atL v hfi hf ts _ m deep w.2 c.2]
+end
+
+/- a raw write to an object that has an interval is overwritten by any covering cascade -/
+theorem setT_absorbs_assignRoot (v w : Option Nat) : ∀ (t : Tree) (m : Nat) (deep : List (List Nat)),
+    t.info.hasInterval = true → wfSet m deep t = true → setT m deep v (assignRoot w t) = setT m deep v t
+  | .node s i iv h kids, m, deep => by
+    simp only [Tree.info, wfSet, Bool.and_eq_true, Bool.or_eq_true, Bool.not_eq_true', assignRoot, setT]
+    rintro hs ⟨w1, _⟩
+    rcases w1 with x | x
+    · rw [hs] at x; cases x
+    · rw [if_pos x, if_pos x]
+
+/- a cascade that writes only objects with an interval is overwritten by any covering cascade -/
+mutual
+theorem setT_absorbs_setT (v w : Option Nat) : ∀ (t : Tree) (m : Nat) (deep : List (List Nat)) (m' : Nat) (deep' : List (List Nat)),
+    wfSet m deep t = true → wfSetOnly m' deep' t = true →
+    setT m deep v (setT m' deep' w t) = setT m deep v t
+  | .node s i iv h kids, m, deep, m', deep' => by
+    simp only [wfSet, wfSetOnly, Bool.and_eq_true, Bool.or_eq_true, Bool.not_eq_true', setT]
+    rintro ⟨w1, w2⟩ ⟨c1, c2⟩
+    rw [setL_absorbs_setL v w kids m _ m' _ w2 c2]
+    congr 1
+    cases hs : s.hasInterval
+    · rcases c1 with x | x
+      · rw [x]; simp
+      · rw [hs] at x; cases x
+    · rcases w1 with x | x
+      · rw [hs] at x; cases x
+      · rw [if_pos x, if_pos x]
+theorem setL_absorbs_setL (v w : Option Nat) : ∀ (ts : List Tree) (m : Nat) (deep : List (List Nat)) (m' : Nat) (deep' : List (List Nat)),
+    wfSetL m deep ts = true → wfSetOnlyL m' deep' ts = true →
+    setL m deep v (setL m' deep' w ts) = setL m deep v ts
+  | [], _, _, _, _ => fun _ _ => rfl
+  | t :: ts, m, deep, m', deep' => by
+    simp only [wfSetL, wfSetOnlyL, Bool.and_eq_true, setL]
+    rintro ⟨w1, w2⟩ ⟨c1, c2⟩
+    rw [(setT_static _ _ w t).2.2.2.1, setT_absorbs_setT v w t _ _ _ _ w1 c1, setL_absorbs_setL v w ts m deep m' deep' w2 c2]
+end
+
+/-- the top-level (or any covering) cascade undoes a raw write to a nested interval -/
+theorem setT_absorbs_pokeT (v w : Option Nat) (k : Nat) (t : Tree) (m : Nat) (deep : List (List Nat))
+    (hw : wfSet m deep t = true) : setT m deep v (pokeT k w t) = setT m deep v t :=
+  setT_absorbs_atT v (q := fun _ => true)
+    (fun t => by cases t; rfl)
+    (fun t m deep hs _ hw => setT_absorbs_assignRoot v w t m deep hs hw) t k m deep hw (everyIvT_true t)
+
+/-- … and a nested object's own setter, when that setter writes only objects with an interval -/
+theorem setT_absorbs_setAtT (v w : Option Nat) (k : Nat) (t : Tree) (m : Nat) (deep : List (List Nat))
+    (hw : wfSet m deep t = true) (hc : setClean t = true) : setT m deep v (setAtT k w t) = setT m deep v t :=
+  setT_absorbs_atT v (q := wfSetOnly 1 [])
+    (fun t => (setT_static 1 [] w t).2.2.2.1)
+    (fun t m deep _ hq hw => setT_absorbs_setT v w t m deep 1 [] hw hq) t k m deep hw hc
+
+/-! ### the new table obligation for `List.map`-built children and for a node from its children -/
+theorem wfSetOnlyL_map {α : Type} (f : α → Tree) (m : Nat) (deep : List (List Nat))
+    (hf : ∀ a, wfSetOnly (m * (f a).info.setCalls) (strip (f a).info.tag deep) (f a) = true) :
+    ∀ l : List α, wfSetOnlyL m deep (l.map f) = true
+  | [] => rfl
+  | a :: l => by simp only [List.map, wfSetOnlyL, Bool.and_eq_true]; exact ⟨hf a, wfSetOnlyL_map f m deep hf l⟩
+
+theorem everyIvL_map {α : Type} (q : Tree → Bool) (f : α → Tree) (hf : ∀ a, everyIvT q (f a) = true) :
+    ∀ l : List α, everyIvL q (l.map f) = true
+  | [] => rfl
+  | a :: l => by simp only [List.map, everyIvL, Bool.and_eq_true]; exact ⟨hf a, everyIvL_map q f hf l⟩
+
+theorem wfSetOnlyL_of_forall (m : Nat) (deep : List (List Nat)) : ∀ kids : List Tree,
+    (∀ k ∈ kids, wfSetOnly (m * k.info.setCalls) (strip k.info.tag deep) k = true) → wfSetOnlyL m deep kids = true
+  | [], _ => rfl
+  | t :: ts, h => by
+    simp only [wfSetOnlyL, Bool.and_eq_true]
+    exact ⟨h t (List.mem_cons_self ..), wfSetOnlyL_of_forall m deep ts (fun k hk => h k (List.mem_cons_of_mem _ hk))⟩
+
+theorem wfSetOnly_node {m : Nat} {deep : List (List Nat)} {s : Info} {i : Nat} {iv : Option Nat} {h : List Nat}
+    {kids : List Tree} (hs : (!setHit m s deep || s.hasInterval) = true)
+    (hk : ∀ k ∈ kids, wfSetOnly (m * k.info.setCalls) (strip k.info.tag (setDeepNext m s deep)) k = true) :
+    wfSetOnly m deep (.node s i iv h kids) = true := by
+  simp only [wfSetOnly, Bool.and_eq_true]
+  exact ⟨hs, wfSetOnlyL_of_forall _ _ kids hk⟩
+
+theorem everyIvL_of_forall (q : Tree → Bool) : ∀ kids : List Tree,
+    (∀ k ∈ kids, everyIvT q k = true) → everyIvL q kids = true
+  | [], _ => rfl
+  | t :: ts, h => by
+    simp only [everyIvL, Bool.and_eq_true]
+    exact ⟨h t (List.mem_cons_self ..), everyIvL_of_forall q ts (fun k hk => h k (List.mem_cons_of_mem _ hk))⟩
+
+theorem everyIvT_node {q : Tree → Bool} {s : Info} {i : Nat} {iv : Option Nat} {h : List Nat} {kids : List Tree}
+    (hs : (!s.hasInterval || q (.node s i iv h kids)) = true) (hk : ∀ k ∈ kids, everyIvT q k = true) :
+    everyIvT q (.node s i iv h kids) = true := by
+  simp only [everyIvT, Bool.and_eq_true]
+  exact ⟨hs, everyIvL_of_forall q kids hk⟩
+
 /-! ### rows written by `k` successful iterations starting at counter `c` -/
 def rows (n : Option Nat) (c k : Nat) : List Nat := (List.range' c k).filter (gateOpen n)
 
